@@ -119,17 +119,28 @@ func genInput(rng *rand.Rand, idx int, nRoots int) Input {
 		in.Group = 1 + rng.Intn(2)
 		acct := common.FromHex(addr(rng.Intn(4)))
 		stakes := []uint64{400, 1300, 450, 800}
+		typ, members := byte(common.MinerTypeValidator), 2+rng.Intn(2)
+		if rng.Intn(2) == 0 {
+			// the same for proposers: three or four proposers paying out to one account (the per-block
+			// proposer reward is then summed per account over a map of proposers); they become active
+			// HeightAfterStake blocks later, i.e. for the batches that run 400 blocks higher
+			typ, members = byte(common.MinerTypeProposer), 3+rng.Intn(2)
+			stakes = []uint64{2000, 2500, 4700, 2000}
+		}
 		rng.Shuffle(len(stakes), func(i, j int) { stakes[i], stakes[j] = stakes[j], stakes[i] })
-		for k := 0; k < 2+rng.Intn(2); k++ {
+		for k := 0; k < members; k++ {
 			src := rich[k%len(rich)]
-			m := types.Miner{Id: minerID(k), PublicKey: minerID(k), VrfPublicKey: minerID(k), Type: common.MinerTypeValidator, Stake: stakes[k]}
-			if k < 2 || rng.Intn(2) == 0 {
+			m := types.Miner{Id: minerID(k), PublicKey: minerID(k), VrfPublicKey: minerID(k), Type: typ, Stake: stakes[k]}
+			if k < members-1 || rng.Intn(2) == 0 {
 				m.Account = acct
 			}
 			b, _ := json.Marshal(m)
 			in.Txs = append(in.Txs, TxSpec{Kind: "miner-apply", Source: src, Nonce: nonce[src], Tag: fmt.Sprintf("i%d-shared-%d", idx, k), Data: string(b)})
 			nonce[src]++
 		}
+	}
+	if rng.Intn(25) == 0 {
+		ntx = 70 + rng.Intn(131) // a large block (the node packs up to 200 transactions)
 	}
 	for t := 0; t < ntx; t++ {
 		src := rich[rng.Intn(len(rich))]
@@ -219,6 +230,8 @@ type outcome struct {
 	Evicted  []string `json:"evicted"`
 	Executed []string `json:"executed"`
 	Receipts []string `json:"receipts"`
+	// ReceiptsRoot is calcReceiptsTree over the receipts
+	ReceiptsRoot string `json:"receipts_root"`
 }
 
 func (o outcome) key() string {
@@ -260,6 +273,8 @@ func execOnce(root common.Hash, in Input, castor, group []byte) (outcome, error)
 		b, _ := json.Marshal(r)
 		o.Receipts = append(o.Receipts, string(b)+"|msg="+r.Msg)
 	}
+	// the receipts root as the proposer / verifier computes it from this list
+	o.ReceiptsRoot = core.VerifCalcReceiptsTree(rc).Hex()
 	return o, nil
 }
 
@@ -288,6 +303,9 @@ func classify(in Input, a, b outcome) (string, string) {
 	}
 	if strings.Join(a.Executed, ",") != strings.Join(b.Executed, ",") {
 		return "C01:executor:executed-order-differs-between-repetitions", fmt.Sprintf("executed %v VS %v", a.Executed, b.Executed)
+	}
+	if a.Root == b.Root && a.ReceiptsRoot != b.ReceiptsRoot {
+		return "C01:executor:receipts-root-differs-for-identical-receipts", fmt.Sprintf("the same %d receipts and state root, but receipts root %s VS %s", len(a.Receipts), a.ReceiptsRoot, b.ReceiptsRoot)
 	}
 	kinds := map[string]bool{}
 	for _, s := range in.Txs {
